@@ -1,9 +1,9 @@
 #!/usr/bin/env python3
-"""tools/mkround.py <n> <prev-n>: prepares seeding round n (worktrees /tmp/seed<n>/Cxx and prompts) from the prompts of
-round prev-n (flavour rotated by three) and seeded/summaries.json (ideas to avoid).  The prompt gives the agent only
+"""tools/mkround.py <n>: prepares seeding round n (worktrees /tmp/seed<n>/Cxx and prompts) from the prompt template next to
+this script (flavour rotated by three per round) and seeded/summaries.json (ideas to avoid).  The prompt gives the agent only
 the property's text, a generic flavour, and the list of earlier ideas."""
 import json,subprocess,os,re,sys
-n,pn=sys.argv[1],sys.argv[2]
+n=sys.argv[1]
 props={}
 for l in open('/verif/properties.jsonl'):
     p=json.loads(l); props[p['id']]=p
@@ -18,20 +18,15 @@ letters=[
 "the change is a portability or robustness 'fix' (32-bit safety, endianness, overflow checks, locale/time handling, unusual reader or image implementations) that is itself wrong in one corner",
 "the change makes two exported functions that should agree (two constructors, two loaders, encode and decode, the image-level and the colour-level function) disagree in one corner, while each still looks right on its own typical inputs",
 ]
-def letter(t):
-    for i,x in enumerate(letters):
-        if t.startswith(x[:40]): return i
-    return 0
-tmpl=open('/tmp/seed%s/C09.prompt.txt'%pn).read()
-head=tmpl.split("The library is supposed to satisfy this property:")[0]
-tail=tmpl.split("Pick a different function, file, mechanism and trigger condition from all of the above.")[1]
+here=os.path.dirname(os.path.abspath(__file__))
+head=open(here+'/seed_prompt_head.txt').read()
+tail=open(here+'/seed_prompt_tail.txt').read()
 os.makedirs('/tmp/seed%s'%n,exist_ok=True)
 for k,p in props.items():
-    prev=re.search(r'This time: (.*)\n',open('/tmp/seed%s/%s.prompt.txt'%(pn,k)).read()).group(1)
-    fl=letters[(letter(prev)+3)%8]
+    fl=letters[(6*(int(k[1:])-1)+3*(int(n)-14))%8]
     d='/tmp/seed%s/%s'%(n,k)
     subprocess.run("git -C /repo worktree add -q --detach %s HEAD"%d,shell=True,check=True)
-    body=head.replace('/tmp/seed%s/C09'%pn,d)
+    body=head.replace('{wt}',d)
     body+="The library is supposed to satisfy this property:\n\n  %s\n  %s\n\n"%(p['title'],p['statement'])
     body+="""Your task: make a SMALL, realistic source change to the library (non-test .go files only, in %s) that BREAKS this property, while
   (a) the library still compiles,
@@ -43,6 +38,6 @@ IMPORTANT - be different. Other developers already tried these ideas; do NOT rep
 """%(d,d,fl)
     for i,t in enumerate(summ[k]): body+="  %d. %s\n"%(i+1,t)
     body+="Pick a different function, file, mechanism and trigger condition from all of the above."
-    body+=tail.replace('/tmp/seed%s/C09'%pn,d)
+    body+=tail.replace('{wt}',d)
     open('/tmp/seed%s/%s.prompt.txt'%(n,k),'w').write(body)
 print('ok')
